@@ -123,38 +123,53 @@ Proof.
 Qed.
 
 (* ... and it fits inside the requested box unless H*w/h falls strictly between W-1 and W (class k_wh_ceil_tie) *)
+Lemma sat_ge_imp z W : 0 < W -> W <= sat_u32 z -> W <= z.
+Proof. unfold sat_u32, U32_MAX. lia. Qed.
+Lemma sat_le_imp z H : 0 < H -> 0 < z -> z <= H -> sat_u32 z <= H.
+Proof. unfold sat_u32, U32_MAX. lia. Qed.
+
+Lemma scale_to_fits s W H : 0 < is_w s -> 0 < is_h s -> 0 < W -> 0 < H ->
+  k_wh_ceil_tie s W H = false ->
+  is_w (isize_scale_to s {| is_w := W; is_h := H |}) <= W /\ is_h (isize_scale_to s {| is_w := W; is_h := H |}) <= H.
+Proof.
+  intros Hw Hh BW BH K. unfold isize_scale_to. cbn [is_w is_h].
+  unfold k_wh_ceil_tie in K.
+  remember (zq H * zq (is_w s) / zq (is_h s))%Q as q eqn:Eq.
+  assert (Pw : (0 < zq (is_w s))%Q) by (apply zq_pos; exact Hw).
+  assert (Ph : (0 < zq (is_h s))%Q) by (apply zq_pos; exact Hh).
+  destruct (sat_u32 (Qceiling q) >=? W) eqn:G; cbn [is_w is_h].
+  - split; [apply Z.le_refl|].
+    assert (G' : W <= Qceiling q).
+    { apply sat_ge_imp; [exact BW|]. rewrite Z.geb_leb in G. apply Z.leb_le. exact G. }
+    assert (Q1 : (zq (W - 1) < q)%Q).
+    { destruct (Qlt_le_dec (zq (W - 1)) q) as [L|L]; [exact L|exfalso].
+      apply Qceiling_le_Z in L. lia. }
+    apply andb_false_iff in K. destruct K as [K|K].
+    { apply Qltb_false in K. exfalso. apply (Qlt_not_le _ _ Q1 K). }
+    apply Qltb_false in K.
+    assert (X : (zq W * zq (is_h s) / zq (is_w s) <= zq H)%Q).
+    { apply Qle_shift_div_r; [exact Pw|].
+      assert (Y : (zq W * zq (is_h s) <= q * zq (is_h s))%Q)
+        by (apply Qmult_le_compat_r; [exact K | apply Qlt_le_weak; exact Ph]).
+      assert (Z0 : (q * zq (is_h s) == zq H * zq (is_w s))%Q).
+      { rewrite Eq. field. intro N. rewrite N in Ph. apply (Qlt_irrefl _ Ph). }
+      rewrite Z0 in Y. exact Y. }
+    apply Qceiling_le_Z in X.
+    apply sat_le_imp; [exact BH| |exact X].
+    apply Qceiling_pos. apply Qlt_shift_div_l; [exact Pw|]. rewrite Qmult_0_l.
+    apply Qmult_lt_0_compat; [apply zq_pos; exact BW | exact Ph].
+  - split; [|apply Z.le_refl]. rewrite Z.geb_leb in G. apply Z.leb_gt in G. lia.
+Qed.
+
 Theorem dims_wh_fits s W H r : 0 < is_w s -> 0 < is_h s ->
   fit_to_size (FitSize W H) s = Some r -> k_wh_ceil_tie s W H = false ->
   is_w r <= W /\ is_h r <= H.
 Proof.
-  intros Hw Hh F K. destruct (dims_wh s W H r F) as [BW [BH D]].
-  simpl in F. destruct (isize_from_wh W H) as [t|] eqn:E; simpl in F; [|discriminate].
-  apply from_wh_some in E. destruct E as [E1 [E2 _]]. inversion F; subst r; clear F.
-  unfold isize_scale_to in *. rewrite E1, E2 in *.
-  set (q := (zq H * zq (is_w s) / zq (is_h s))%Q) in *.
-  destruct (sat_u32 (Qceiling q) >=? W) eqn:G; simpl in *.
-  - split; [lia|].
-    (* ceil q >= W  ->  q > W - 1  ->  (no tie) q >= W  ->  W*h/w <= H *)
-    rewrite Z.geb_leb in G. b2p.
-    assert (Q1 : (zq (W - 1) < q)%Q).
-    { destruct (Qlt_le_dec (zq (W - 1)) q) as [L|L]; [exact L|exfalso].
-      apply Qceiling_le_Z in L. pose proof (sat_u32_mono _ _ L). unfold sat_u32, U32_MAX in *. lia. }
-    unfold k_wh_ceil_tie in K. fold q in K. b2p. destruct K as [K|K].
-    { apply Qltb_false in K. exfalso. apply (Qlt_not_le _ _ Q1 K). }
-    apply Qltb_false in K.
-    assert (Pw : (0 < zq (is_w s))%Q) by (apply zq_pos; exact Hw).
-    assert (Ph : (0 < zq (is_h s))%Q) by (apply zq_pos; exact Hh).
-    assert (X : (zq W * zq (is_h s) / zq (is_w s) <= zq H)%Q).
-    { apply Qle_shift_div_r; [exact Pw|].
-      assert (Y : (zq W * zq (is_h s) <= q * zq (is_h s))%Q) by (apply Qmult_le_compat_r; [exact K | apply Qlt_le_weak; exact Ph]).
-      assert (Z0 : (q * zq (is_h s) == zq H * zq (is_w s))%Q) by (unfold q; field; intro N; rewrite N in Ph; apply (Qlt_irrefl _ Ph)).
-      rewrite Z0 in Y. exact Y. }
-    apply Qceiling_le_Z in X.
-    assert (0 < Qceiling (zq W * zq (is_h s) / zq (is_w s))%Q).
-    { apply Qceiling_pos. apply Qlt_shift_div_l; [exact Pw|]. rewrite Qmult_0_l.
-      apply Qmult_lt_0_compat; [apply zq_pos; lia | exact Ph]. }
-    unfold sat_u32, U32_MAX in *. lia.
-  - rewrite Z.geb_leb in G. b2p. lia.
+  intros Hw Hh F K. cbn [fit_to_size] in F.
+  destruct (isize_from_wh W H) as [t|] eqn:E; cbn [option_map] in F; [|discriminate].
+  apply from_wh_some in E. destruct E as [E1 [E2 [E3 E4]]]. inversion F as [F']. clear F.
+  destruct t as [tw th]. cbn [is_w is_h] in E1, E2. subst tw th.
+  apply scale_to_fits; auto; lia.
 Qed.
 
 (* the faithful model does NOT satisfy "fits inside" unconditionally *)
@@ -264,7 +279,6 @@ Proof.
   unfold process, c20_process_steps, init_state.
   repeat split; intros; simpl;
     repeat match goal with H : _ = _ |- _ => rewrite H; clear H end; simpl; try reflexivity.
-  destruct (Nat.eqb (e_ids e) 0); reflexivity.
 Qed.
 #[local] Transparent render_svg args_valid.
 
@@ -313,10 +327,10 @@ Theorem trim_no_panic fit doc canvas c :
    q_to_int_rect (x * t_sx t)%Q (y * t_sy t)%Q (w * t_sx t)%Q (h * t_sy t)%Q <> None) ->
   exists s, trim fit doc canvas c = ROk s.
 Proof.
-  intros P Hh. destruct c as [[[x y] w] h]. intro NN. unfold trim.
+  intros P Hh. destruct c as [[[x y] w] h]. intro NN. unfold trim. cbv zeta in *.
   unfold pixmap_new_ok in P. b2p.
   rewrite (limit_rect_ok (is_w canvas) (is_h canvas)) by lia.
-  destruct (q_to_int_rect _ _ _ _) as [ci|]; [|congruence].
+  destruct (q_to_int_rect _ _ _ _) as [ci|] eqn:QI; [|exfalso; apply NN; reflexivity].
   destruct (cli_fit_to_rect ci _); eexists; reflexivity.
 Qed.
 
@@ -333,7 +347,7 @@ Theorem trim_within_canvas fit doc canvas c s :
   pixmap_new_ok canvas = true -> is_h canvas <= I32_MAX -> trim fit doc canvas c = ROk s ->
   0 < is_w s <= is_w canvas /\ 0 < is_h s <= is_h canvas.
 Proof.
-  intros P Hh. destruct c as [[[x y] w] h]. unfold trim. unfold pixmap_new_ok in P. b2p.
+  intros P Hh. destruct c as [[[x y] w] h]. unfold trim. cbv zeta. unfold pixmap_new_ok in P. b2p.
   rewrite (limit_rect_ok (is_w canvas) (is_h canvas)) by lia.
   destruct (q_to_int_rect _ _ _ _) as [ci|]; [|discriminate].
   destruct (cli_fit_to_rect ci _) as [r|] eqn:F.
@@ -372,8 +386,10 @@ Proof.
     destruct (a_area_drawing a) eqn:AD; [|discriminate]. simpl.
     unfold trim in R. destruct (e_content e) as [[[x y] w] h].
     destruct (is_h size <=? I32_MAX) eqn:HH; simpl; [|rewrite !orb_true_r; reflexivity].
-    unfold pixmap_new_ok in P1. b2p.
-    rewrite (limit_rect_ok (is_w size) (is_h size)) in R by lia.
+    assert (Wok : 0 < is_w size <= MAX_PIXMAP_W /\ 0 < is_h size <= I32_MAX).
+    { unfold pixmap_new_ok in P1. apply negb_false_iff in P1. apply andb_true_iff in P1. destruct P1 as [P1 P1c].
+      apply andb_true_iff in P1. destruct P1 as [P1a P1b]. apply Z.ltb_lt in P1a, P1b. apply Z.leb_le in P1c, HH. lia. }
+    cbv zeta in R. rewrite (limit_rect_ok (is_w size) (is_h size)) in R by lia.
     destruct (q_to_int_rect _ _ _ _); [|reflexivity].
     destruct (cli_fit_to_rect _ _); discriminate.
 Qed.
